@@ -64,6 +64,7 @@ class DelayTemplate:
         self.clamp = None
         self.read = None
         self.next_write = None
+        self.order = None
         self.problems = []
 
 
@@ -135,7 +136,35 @@ def extract_delay(facts, fn):
             dt.read = _norm(r, L, dict(leaves, d=_find_int_of_clamp(r)))
         elif r is not w_expr and repr(w_expr) in txt:
             dt.next_write = _norm(r, L, leaves)
+    # order of the two ring accesses on the path: the access whose index is the read index (it mentions the clamped
+    # time) and the access whose index is the write index (w itself, not w + 1).  References into the ring cannot be
+    # held across the mutable access (borrow checker), so the order of the accessor calls is the order of the load and
+    # the store.
+    ACC = ("get_unchecked", "get_unchecked_mut", "index", "index_mut", "get", "get_mut")
+    rd = wr = None
+    wtxt = repr(w_expr)
+    for i, ev in enumerate(p.events):
+        if ev[0] != "call" or ev[1].split("::")[-1] not in ACC or len(ev[2]) < 2:
+            continue
+        itxt = repr(ev[2][1])
+        if "clamp" in itxt:
+            rd = i if rd is None else rd
+        elif wtxt in itxt and not _is_succ(ev[2][1], w_expr):
+            wr = i if wr is None else wr
+    if rd is None or wr is None:
+        dt.problems.append("ring accesses not found (read access: %s, write access: %s)" % (rd is not None, wr is not None))
+    else:
+        dt.order = "the delayed sample is read, then the input is written" if rd < wr else "the input is written, then the delayed sample is read"
     return dt
+
+
+def _is_succ(e, w):
+    """e is (w + 1) % L or contains it: the next write position, not the current one"""
+    if not isinstance(e, tuple):
+        return False
+    if e and e[0] == "bin" and e[1] == "rem" and e is not w and repr(w) in repr(e[2]) and _strip(e[2]) != _strip(w[2]):
+        return True
+    return any(_is_succ(x, w) for x in e if isinstance(x, tuple))
 
 
 def _find_int_of_clamp(e, d=0):
@@ -178,7 +207,7 @@ def delay_impls(facts):
 
 
 def rule_delay(ck, facts, R, want=("vm", "wasm")):
-    ck.rule(R, "the implementations of `delay` (%s) clamp the delay time to the same bounds relative to the ring length L (0.0 .. f64(L-1)), compute the same read index ((w + L - d) %% L) and the same next write index ((w + 1) %% L)" % ", ".join(want))
+    ck.rule(R, "the implementations of `delay` (%s) clamp the delay time to the same bounds relative to the ring length L (0.0 .. f64(L-1)), compute the same read index ((w + L - d) %% L) and the same next write index ((w + 1) %% L), and access the ring in the same order (read the delayed sample, then write the input: the two differ when the delay is 0 samples)" % ", ".join(want))
     impls = delay_impls(facts)
     for w in want:
         ck.require(R, w in impls, "anchor|delay-%s" % w, "delay implementation `%s` not found (functions that clamp a time and index a ring with %%)" % w)
@@ -200,7 +229,7 @@ def rule_delay(ck, facts, R, want=("vm", "wasm")):
     for w, dt in tmpl.items():
         if w == ref_name:
             continue
-        for what, a, b in (("clamp", ref.clamp, dt.clamp), ("read-index", ref.read, dt.read), ("next-write", ref.next_write, dt.next_write)):
+        for what, a, b in (("clamp", ref.clamp, dt.clamp), ("read-index", ref.read, dt.read), ("next-write", ref.next_write, dt.next_write), ("access-order", ref.order, dt.order)):
             key = "delay|%s-vs-%s|%s" % (ref_name, w, what)
             if a == b and a is not None:
                 ck.ok(R, key, {"what": what, ref_name: a, w: b})
